@@ -10,6 +10,9 @@ import DimodProofs.DqmAdj
 import DimodProofs.DqmEnergy
 import DimodProofs.IneqCoded
 import DimodProofs.DqmIneq
+import DimodProofs.CqmSlackFresh
+import DimodProofs.InverterOnto
+import DimodProofs.InverterOnto2
 
 /-! # C16 — constraint-to-penalty conversions penalise exactly the violating assignments
 
@@ -271,9 +274,10 @@ theorem qm_to_bqm_substitutes (vars : List (Label × VKind)) (z : Label → Rat)
     per-bit linear terms with `constant = offset`, `lb`/`ub = rhs` — whose penalty is characterised by
     `ineq_penalty_zero_iff` / `ineq_penalty_zero_iff_equality` / `ineq_refuses_only_infeasible`.
     and composed for the CQM in `cqm_inequality_constraint_shape` / `cqm_inequality_constraint_penalty`.
-    The statements over the whole constraint list are `cqm_to_bqm_sound_lower` (no label hypothesis) and
-    `cqm_to_bqm_sound_feasible` (under the distinct-labels hypothesis `Sep`). -/
-theorem cqm_to_bqm_sound_partial (q : CQM) (lam? : Option Rat) (b : Bq Label) (lam : Rat) (h : cqmToBqm q lam? = .ok (b, lam))
+    The statements over the whole constraint list are `cqm_to_bqm_sound_lower` (no label hypothesis),
+    `cqm_to_bqm_sound_feasible` (under the distinct-labels hypothesis `Sep`) and the full `cqm_to_bqm_sound`
+    (`Sep` proved from the label generation). -/
+theorem cqm_to_bqm_energy_decomposition (q : CQM) (lam? : Option Rat) (b : Bq Label) (lam : Rat) (h : cqmToBqm q lam? = .ok (b, lam))
     (z : Label → Rat) (hz : Dom .binary z) :
     ∃ bags, consBags q.vars lam 0 q.cons = .ok bags
       ∧ b.energy z = qmEnergy (decode q.vars z) q.obj + evalBag z bags := cqmToBqm_energy q lam? b lam h z hz
@@ -354,6 +358,52 @@ theorem cqm_to_bqm_sound_feasible (q : CQM) (lam : Rat) (hlam : 0 ≤ lam) (b : 
       ∧ b.energy (toRat z') = qmEnergy (decode q.vars (toRat z)) q.obj :=
   cqmToBqm_feasible q lam hlam b h hint P hP hPobj hsep z hz hsat
 
+/-! ### the slack labels as generated are separated: `cqm_to_bqm_sound` without a label hypothesis
+
+The code draws the label of every `≤` / `≥` constraint from `new_variable_label()` (a uuid); the model draws the label
+of the constraint at position `i` from the injective oracle `i ↦ "c<i>"` (the harness renames the uuids in order of
+appearance).  All the proofs use of a uuid is: different constraints get different labels (proved for the oracle:
+`slack_c<i>_<a> = slack_c<i'>_<b>` forces `i = i'`, `a = b`), and the name is not already a label of the caller's
+CQM — the only hypothesis left (`hfresh`; the code does not check it either). -/
+
+/-- the names `slack_c<i>_<j>` determine `i` and `j` -/
+theorem cqm_slack_names_injective (i i' a b : Nat) (h : (s!"slack_{s!"c{i}"}_{a}" : String) = s!"slack_{s!"c{i'}"}_{b}") : i = i' ∧ a = b :=
+  slack_name_inj i i' a b h
+
+/-- **the separation hypothesis `Sep` holds for the labels as generated**: the slack labels of one constraint are
+    pairwise different, different from those of every other constraint, and — given that no protected label has the
+    shape of a generated slack name — not protected -/
+theorem cqm_slack_labels_separated (vars : List (Label × VKind)) (P : List Label) (hP : ∀ l ∈ P, ¬ IsSlackName l) (i : Nat) (cons : List Cons) :
+    Sep vars P i cons := sep_of_generated vars P hP i cons
+
+/-- **`cqm_to_bqm_sound`** (integer-coefficient linear constraints, `λ ≥ 0`; binary, spin and zero-lower-bound integer
+    variables).  Only hypothesis on labels: none of the CQM's own bit labels has the shape `slack_c<i>_<j>`.
+    At every 0/1 sample `z` of the BQM, with `y = decode z` the inverted CQM sample:
+    * `E_bqm(z) ≥ objective(y)` — for every value of the slack bits;
+    * `E_bqm(z) ≥ objective(y) + λ` whenever `y` violates a constraint — for every value of the slack bits;
+    * when `y` satisfies every constraint, the slack bits — and only they — can be set so that `E_bqm = objective(y)`.
+    Hence the energy minimised over the slack bits equals the objective at every feasible CQM assignment and exceeds it
+    by at least the multiplier at every infeasible one. -/
+theorem cqm_to_bqm_sound (q : CQM) (lam : Rat) (hlam : 0 ≤ lam) (b : Bq Label) (h : cqmToBqm q (some lam) = .ok (b, lam))
+    (hint : ∀ c ∈ q.cons, IntCons' q.vars c) (hfresh : ∀ l ∈ ownLabels q, ¬ IsSlackName l)
+    (z : Label → Int) (hz : Bin01 z) :
+    qmEnergy (decode q.vars (toRat z)) q.obj ≤ b.energy (toRat z)
+    ∧ ((∃ c ∈ q.cons, ¬ c.holdsAt (decode q.vars (toRat z))) → qmEnergy (decode q.vars (toRat z)) q.obj + lam ≤ b.energy (toRat z))
+    ∧ ((∀ c ∈ q.cons, c.holdsAt (decode q.vars (toRat z))) →
+        ∃ z', Bin01 z' ∧ (∀ v, v ∉ slackAll q.vars 0 q.cons → z' v = z v)
+          ∧ b.energy (toRat z') = qmEnergy (decode q.vars (toRat z)) q.obj) := by
+  obtain ⟨h1, h2⟩ := cqmToBqm_lower q lam hlam b h (fun c hc => (hint c hc).toIntCons) z hz
+  exact ⟨h1, h2, fun hsat => cqmToBqm_feasible_generated q lam hlam b h hint hfresh z hz hsat⟩
+
+/-- the generated slack names never collide with integer, tuple or non-`slack_…` string labels — e.g. the bits
+    `(v, c)` / `(v, c, "msb")` of `binary_encoding` and plain variable names are fresh in the sense of `hfresh` -/
+theorem cqm_slack_name_shape (l : Label) (h : IsSlackName l) : ∃ s : String, l = .str s ∧ ∃ i a : Nat, s = s!"slack_{s!"c{i}"}_{a}" := by
+  obtain ⟨i, S, hm⟩ := h
+  unfold slackLabels at hm
+  simp only [List.mem_map, List.mem_range] at hm
+  obtain ⟨a, _, rfl⟩ := hm
+  exact ⟨_, rfl, i, a, rfl⟩
+
 theorem cqm_refuses_quadratic_constraint (vars : List (Label × VKind)) (lam : Rat) (i : Nat) (c : Cons) (h : c.lhs.quad ≠ []) :
     consBag vars lam i c = .error .quadraticConstraint := consBag_refuses_quadratic vars lam i c h
 
@@ -368,6 +418,72 @@ theorem inverter_inverts (vars : List (Label × VKind)) (z : Label → Rat) :
           decode vars z v = lsum z (bits.map (fun b => (b.1, natRat b.2)))) :=
   ⟨invert_spec vars z, fun v h => decode_binary vars z v h, fun v h hz => decode_spin_dom vars z v h hz,
    fun v lb ub bits h hb => decode_integer vars z v lb ub h bits hb⟩
+
+/-- **`cqm_to_bqm` refuses label conflicts** (as repaired, D64): whenever the conversion succeeds, no `binary_encoding` bit
+    of any integer variable is itself a variable label of the CQM — so a BQM variable is either a CQM binary/spin
+    variable or a bit of exactly one integer, never both -/
+theorem cqm_to_bqm_bits_not_variables (q : CQM) (lam? : Option Rat) (b : Bq Label) (lam : Rat) (h : cqmToBqm q lam? = .ok (b, lam)) :
+    ∀ v lb ub e, (v, VKind.integer lb ub) ∈ q.vars → binaryEncoding v ub.toNat = some e → ∀ bit ∈ e, bit.1 ∉ q.vars.map (·.1) := by
+  unfold cqmToBqm at h
+  split at h
+  · simp at h
+  · rename_i init hinit
+    unfold cqmInitVars at hinit
+    split at hinit
+    · simp at hinit
+    · rename_i bits hbits
+      exact cqmInitBits_fresh _ q.vars bits hbits
+
+/-- … and a CQM whose first integer has a bit labelled like one of the CQM's variables is refused with the
+    "conflicting variables" error — e.g. integer `i` (upper bound 3) next to a binary variable `('i', 1)` -/
+theorem cqm_to_bqm_conflict_witness :
+    let q : CQM := { vars := [(.str "i", .integer 0 3), (.tup [.str "i", .int 1], .binary)],
+                     obj := { lin := [(.str "i", 1), (.tup [.str "i", .int 1], 10)], quad := [], off := 0 }, cons := [] }
+    (match cqmToBqm q (some 1) with
+     | .error .conflict => true
+     | _ => false) = true := by decide +kernel
+
+/-- **inverter round trip, variable by variable**: every value of a CQM variable's domain is the inverter's image of
+    some setting of *that variable's own* BQM bits, all other bits unchanged — binary: `0/1`; spin: `±1`; integer
+    `0..ub` (through `binary_encoding`, whose bit labels are pairwise different).  With `inverter_inverts` (the inverter
+    is `decode`, and lands in the domain): BQM samples map back to CQM samples, onto. -/
+theorem inverter_round_trip (vars : List (Label × VKind)) (v : Label) (z : Label → Int) (hz : Bin01 z) :
+    (kindOf vars v = some .binary → ∀ b : Bool,
+        ∃ z', Bin01 z' ∧ (∀ l, l ≠ v → z' l = z l) ∧ decode vars (toRat z') v = (if b then 1 else 0))
+    ∧ (kindOf vars v = some .spin → ∀ b : Bool,
+        ∃ z', Bin01 z' ∧ (∀ l, l ≠ v → z' l = z l) ∧ decode vars (toRat z') v = (if b then 1 else -1))
+    ∧ (∀ lb ub bits, kindOf vars v = some (.integer lb ub) → binaryEncoding v ub.toNat = some bits → ∀ t : Nat, t ≤ ub.toNat →
+        ∃ z', Bin01 z' ∧ (∀ l, l ∉ bits.map (·.1) → z' l = z l) ∧ decode vars (toRat z') v = (((t : Nat) : Int) : Rat)) :=
+  ⟨fun h b => inverter_reaches_binary vars v h z hz b, fun h b => inverter_reaches_spin vars v h z hz b,
+   fun lb ub bits h hb t ht => inverter_reaches_integer vars v lb ub h bits hb z hz t ht⟩
+
+/-- **the inverter is onto, all variables at once**: whenever `cqm_to_bqm` succeeds (variable labels pairwise
+    different, as in every CQM), every assignment of the CQM variables within their domains (binary `0/1`, spin `±1`,
+    integer `0..ub`) is the inverter's image of some 0/1 sample of the BQM.  Uses the conflict refusal (D64): the bits of
+    different variables are pairwise disjoint, so each variable can be set without disturbing the others. -/
+theorem inverter_onto (q : CQM) (lam? : Option Rat) (b : Bq Label) (lam : Rat) (h : cqmToBqm q lam? = .ok (b, lam))
+    (hnd : (q.vars.map (·.1)).Nodup) (target : Label → Rat) (hdom : ∀ p ∈ q.vars, InDom p.2 (target p.1)) :
+    ∃ z, Bin01 z ∧ ∀ p ∈ q.vars, decode q.vars (toRat z) p.1 = target p.1 := by
+  unfold cqmToBqm at h
+  split at h
+  · simp at h
+  · rename_i init hinit
+    unfold cqmInitVars at hinit
+    split at hinit
+    · simp at hinit
+    · rename_i bits hbits
+      have hfresh := cqmInitBits_fresh _ q.vars bits hbits
+      have henc := cqmInitBits_encodes _ q.vars bits hbits
+      apply onto_aux q.vars target q.vars ?_ (pairwise_bits_disjoint q.vars hnd hfresh q.vars (fun p hp => hp) hnd) (fun _ => 0) (fun _ => Or.inl rfl)
+      intro p hp
+      refine ⟨kindOf_of_mem_nodup q.vars hnd p hp, hdom p hp, ?_⟩
+      intro lb ub hk
+      have : (p.1, VKind.integer lb ub) ∈ q.vars := by rw [← hk]; exact hp
+      exact henc p.1 lb ub this
+
+/-- the bit labels of `binary_encoding(v, ub)` are pairwise different -/
+theorem binary_encoding_labels_distinct (v : Label) (ub : Nat) (l : List (Label × Nat)) (h : binaryEncoding v ub = some l) :
+    (l.map (·.1)).Nodup := binaryEncoding_labels_nodup v ub l h
 
 /-! ## non-vacuity -/
 
